@@ -56,7 +56,8 @@ def net_body_paths(cat):
                     yield c.a["kval"], c.a["val"], bp
                 else:
                     yield None, None, bp
-        break   # the framer's outer paths differ only in how the function is left
+        if seen:
+            break   # the framer's outer paths that reach the loop differ only in how the function is left
     if not seen:
         raise AnalysisError("anchor vanished: no packet-type lookup reached from dataReceived")
 
@@ -297,3 +298,24 @@ def honoured(tr, caps):
     if tr.kind == "NET":
         return tr.slot is not None and expected_packet(tr.name, tr.slot, caps)
     return True
+
+
+def run_premise(ctx, prop, rule, prefix, what_holds, consequence, where_="src/mqtt/client"):
+    """Another property's rules as a premise of this one: runs that property's check on the same analysis and reports its
+    (unlisted) failures under `rule` of the calling property, one instance per failed construct, or one for the lot."""
+    import importlib
+    from ..report import Ctx, load_known
+    sub = Ctx(prop, ctx.a, ctx.tier)
+    importlib.import_module("sa.rules." + prop.lower()).check(sub)
+    known = {(k["rule"], k["construct"]) for k in load_known() if k.get("property") == prop and k.get("status") == "known"}
+    seen = set()
+    for f in sub.findings:
+        key = (f.rule, f.construct)
+        if key in seen or key in known:
+            continue
+        seen.add(key)
+        ctx.ob(rule, "%s premise %s %s" % (prefix, f.rule, f.construct), False, file=f.file, line=f.line, function=f.function,
+               construct="%s/%s/%s" % (prefix, f.rule, f.construct), msg="%s (%s %s) - %s" % (f.message, prop, f.rule, consequence))
+    if not seen:
+        ctx.ob(rule, "%s (%d instances of %s's rules)" % (what_holds, len(sub.obligations), prop), True, where=where_, construct="%s/premises" % prefix)
+    ctx.count("%s_premise_instances" % prefix, len(sub.obligations))
